@@ -2042,10 +2042,18 @@ func ruleOneStatementPerStream(r *Run, rule, key string) {
 		return
 	}
 	var lit *ast.FuncLit
+	var ch types.Object
 	for i := range paths {
 		for _, e := range paths[i].Ev {
 			if IsCall(e, keySubmit) {
 				lit = LitArg(e.Call)
+			}
+			if e.Kind == EvReturn && len(e.Rhs) == 2 {
+				if o := ObjOf(fn.Pkg.TypesInfo, e.Rhs[0]); o != nil {
+					if _, isCh := o.Type().Underlying().(*types.Chan); isCh {
+						ch = o
+					}
+				}
 			}
 		}
 	}
@@ -2066,7 +2074,9 @@ func ruleOneStatementPerStream(r *Run, rule, key string) {
 		p := &all[i]
 		n := 0
 		for _, e := range p.Ev {
-			if e.Kind == EvCall && sqliteExecKeys[CalleeKey(e)] {
+			// a statement feeds the stream when its call mentions the stream (the ResultFunc sends on it); a PRAGMA or a count
+			// executed on the side does not
+			if e.Kind == EvCall && sqliteExecKeys[CalleeKey(e)] && (ch == nil || mentionsObj(lf.Info, e.Call, ch)) {
 				n++
 				if n == 2 && bad == "" {
 					bad, bpos = "the producer of "+short+"'s stream executes a row-producing statement more than once for one stream: each execution is ordered newest first, their concatenation is not, and a plan matching two of them is delivered twice", e.Pos
